@@ -780,10 +780,115 @@ func judgeE2E(run *vk.Run, fields, wit map[string]any, cfg e2eCfg, recovered boo
 	}
 }
 
+// runCleanerRace: the clean-up task removes expired entries from the packet log WHILE broadcasts keep
+// appending to it. A steady single-goroutine stream of namespace-wide broadcasts (uids 1,2,3,...) runs for the
+// whole trial with a window of 400 ms and a clean-up period of 1 ms; once the log holds expired entries (so
+// that every pass really removes something) one session is lost and restored 150 ms later, well inside the
+// window. Required: every uid whose Broadcast had returned between the session's offset and the start of
+// RestoreSession is replayed exactly once, in order (uids still in flight at the restore may or may not be).
+func runCleanerRace(run *vk.Run, rep int) {
+	run.Eval(1)
+	window := 400 * time.Millisecond
+	st := &store{sockets: map[adapter.SocketID]adapter.Socket{}, got: map[adapter.SocketID][]delivery{}}
+	ad := adapter.VerifNewSessionAwareAdapterCreator(window, time.Millisecond)(st, creator)
+	for _, sid := range []adapter.SocketID{"v", "w"} {
+		st.sockets[sid] = &fakeSocket{id: sid, a: ad}
+		ad.AddAll(sid, []adapter.Room{adapter.Room(sid)})
+	}
+	passes0 := adapter.VerifHookHits(hookCleaner)
+	var returned atomic.Int64 // highest uid whose Broadcast has returned
+	stop := make(chan struct{})
+	done := make(chan struct{})
+	go func() {
+		defer close(done)
+		for uid := 1; ; uid++ {
+			select {
+			case <-stop:
+				return
+			default:
+			}
+			hdr := &parser.PacketHeader{Type: parser.PacketTypeEvent, Namespace: "/"}
+			ad.Broadcast(hdr, []any{"ev", uid}, adapter.NewBroadcastOptions())
+			returned.Store(int64(uid))
+			if uid%8 == 0 {
+				time.Sleep(50 * time.Microsecond)
+			}
+		}
+	}()
+	time.Sleep(window + time.Duration(100+20*(rep%5))*time.Millisecond) // expired entries exist from now on
+	// lose the session: its offset is the last delivery it got
+	st.mu.Lock()
+	got := st.got["v"]
+	var off delivery
+	if len(got) > 0 {
+		off = got[len(got)-1]
+	}
+	st.mu.Unlock()
+	ad.PersistSession(&adapter.SessionToPersist{SID: "v", PID: "pv", Rooms: []adapter.Room{"v"}})
+	ad.DeleteAll("v")
+	st.Remove("v")
+	time.Sleep(150 * time.Millisecond)
+	mustHave := int(returned.Load())
+	sess, ok := ad.RestoreSession("pv", off.offset)
+	close(stop)
+	<-done
+	passes := adapter.VerifHookHits(hookCleaner) - passes0
+	fields := map[string]any{"binary": false, "cleaner": true, "concurrent_broadcasts": true}
+	wit := map[string]any{"window_ms": window.Milliseconds(), "cleaner_ms": 1, "offset_uid": off.uid, "last_uid_returned_before_restore": mustHave, "cleaner_passes": passes, "seed": run.Seed()}
+	switch {
+	case off.offset == "":
+		run.Inconclusive("cleaner race: the session never received an offset")
+	case !ok:
+		run.Violation(vk.Violation{Sub: "not-recovered-inside-window", Fields: fields,
+			What: fmt.Sprintf("session lost for 150 ms with a window of %v while broadcasts and clean-up passes (%d) run concurrently: RestoreSession refused (offset uid %d was emitted under 200 ms before)", window, passes, off.uid), Witness: wit})
+	default:
+		var replay []int
+		for _, mp := range sess.MissedPackets {
+			hdr := *mp.Header
+			frames, err := creator().Encode(&hdr, &mp.Data)
+			if err != nil {
+				continue
+			}
+			if d := decodeFrames(frames); d.ok {
+				replay = append(replay, d.uid)
+			}
+		}
+		var missing, disorder []int
+		pos := map[int]int{}
+		for i, u := range replay {
+			if _, dup := pos[u]; dup || (i > 0 && u <= replay[i-1]) {
+				disorder = append(disorder, u)
+			}
+			pos[u] = i
+		}
+		for u := off.uid + 1; u <= mustHave; u++ {
+			if _, ok := pos[u]; !ok {
+				missing = append(missing, u)
+			}
+		}
+		wit["replayed"], wit["missing_count"] = len(replay), len(missing)
+		if len(missing) > 0 {
+			m := missing
+			if len(m) > 12 {
+				m = m[:12]
+			}
+			run.Violation(vk.Violation{Sub: "replay-mismatch", Fields: map[string]any{"binary": false, "cleaner": true, "kind": "gap", "concurrent_broadcasts": true},
+				What: fmt.Sprintf("recovered inside the window, but %d of the %d broadcasts that had returned while the session was away are missing from the replay (first: %v); %d clean-up passes ran concurrently with the broadcasts",
+					len(missing), mustHave-off.uid, m, passes), Witness: wit})
+		} else if len(disorder) > 0 {
+			run.Violation(vk.Violation{Sub: "replay-mismatch", Fields: map[string]any{"binary": false, "cleaner": true, "kind": "reordered-or-duplicated", "concurrent_broadcasts": true},
+				What: fmt.Sprintf("replay out of order or duplicated at uids %v", disorder[:min(len(disorder), 12)]), Witness: wit})
+		}
+		run.Count("cleaner_race_replayed", int64(len(replay)))
+	}
+	run.Count("cleaner_race_passes", passes)
+	run.Distinct(fmt.Sprintf("adapter/cleaner-race/recovered=%v", ok))
+}
+
 func main() {
 	run := vk.Start("C08", "exploration")
 	run.Rule("adapter histories: n broadcasts {namespace, room with exclusions, direct, room} x {text, binary, ack-carrying} over 3 sessions x 3 rooms, disconnect at every point k, reconnect gap on both sides of the window, " +
-		"clean-up period {off, 2 ms, 10 ms}; end to end with a raw peer and with the Go client (proxy cut); distinct = (layer, outcome class, binary, cleaner on/off, clean-up passes bucket, missed-count bucket)")
+		"clean-up period {off, 2 ms, 10 ms}; a steady broadcast stream running concurrently with 1 ms clean-up passes around a lost and restored session; end to end with a raw peer and with the Go client (proxy cut); distinct = (layer, outcome class, binary, cleaner on/off, clean-up passes bucket, missed-count bucket)")
 	run.Assume("time is bracketed: must-recover only when an upper bound of the elapsed time is inside the window (and the offset entry is provably unexpired or the cleaner is off), must-not only when a lower bound is outside",
 		"a client that never received an offset cannot recover (reference behaviour)")
 	r := run.Rand("c08")
@@ -821,6 +926,17 @@ func main() {
 			defer wg.Done()
 			defer func() { <-sem }()
 			runHistory(run, hr, cfg)
+		}()
+	}
+	wg.Wait()
+	for rep := 0; rep < run.Pick(6, 40); rep++ {
+		rep := rep
+		wg.Add(1)
+		sem <- struct{}{}
+		go func() {
+			defer wg.Done()
+			defer func() { <-sem }()
+			runCleanerRace(run, rep)
 		}()
 	}
 	wg.Wait()
